@@ -2,6 +2,8 @@ package props
 
 import (
 	"bytes"
+	cryptorand "crypto/rand"
+	"errors"
 	"fmt"
 
 	"github.com/ucan-wg/go-ucan/pkg/command"
@@ -19,7 +21,7 @@ func init() {
 	register(&mon.Prop{
 		ID:    "C19",
 		Level: "fault_enumeration",
-		Rule: "plaintexts of length {0,1,15,16,17,64,1024 (+65536 thorough)}, text and binary, under random 32-byte keys, added through delegation / invocation options and meta.AddEncrypted: right-key read-back before and after seal/unseal in DAG-CBOR and DAG-JSON (typed and generic decoders); fault enumeration over the stored ciphertext: EVERY single-bit flip (nonce, MAC, body; exhaustive up to 1 KiB plaintexts, first/last 128 bytes + 2000 random bits for 64 KiB) and EVERY truncation length must make the read fail; a second random key must fail; plaintext must not occur in the stored value nor in the sealed bytes; two encryptions of the same value differ and all 24-byte nonces of the run are pairwise distinct; nil / every length 0..64 except 32 / all-zero keys refused by add and get. " +
+		Rule: "plaintexts of length {0,1,15,16,17,64,1024 (+65536 thorough)}, text and binary, under random 32-byte keys, added through delegation / invocation options and meta.AddEncrypted: right-key read-back before and after seal/unseal in DAG-CBOR and DAG-JSON (typed and generic decoders); fault enumeration over the stored ciphertext: EVERY single-bit flip (nonce, MAC, body; exhaustive up to 1 KiB plaintexts, first/last 128 bytes + 2000 random bits for 64 KiB) and EVERY truncation length must make the read fail; a second random key must fail; plaintext must not occur in the stored value nor in the sealed bytes; two encryptions of the same value differ and all 24-byte nonces of the run are pairwise distinct; nil / every length 0..64 except 32 / all-zero keys refused by add and get; fault injection on the entropy source (crypto/rand.Reader failing at once / after 5 / after 23 bytes): two encryptions of the same value must not come out identical. " +
 			"non-trivial = tamper case on a ciphertext of a non-empty plaintext; distinct = (plaintext length, kind, tamper position).",
 		Assumptions: []string{
 			"'confidential' is restated as its observable consequences (plaintext absent, fresh nonces, authentication failure on every single-bit change); no cryptanalytic claim",
@@ -31,7 +33,7 @@ func init() {
 		MinDistinct: floor(15000, 200000),
 		RequiredCells: func(string) []string {
 			return []string{"roundtrip/constructed", "roundtrip/dagcbor", "roundtrip/dagjson", "roundtrip/delegation", "roundtrip/invocation", "roundtrip/string", "roundtrip/bytes",
-				"tamper/bitflip-nonce", "tamper/bitflip-mac", "tamper/bitflip-body", "tamper/truncate", "wrong-key", "plaintext-absent", "fresh-nonce", "badkey/nil", "badkey/size", "badkey/zero", "len=0", "len=1024"}
+				"tamper/bitflip-nonce", "tamper/bitflip-mac", "tamper/bitflip-body", "tamper/truncate", "wrong-key", "plaintext-absent", "fresh-nonce", "entropy-fault", "badkey/nil", "badkey/size", "badkey/zero", "len=0", "len=1024"}
 		},
 	})
 }
@@ -269,6 +271,30 @@ func runC19(w *mon.W) {
 		}
 	}
 
+	// ---- entropy fault: with crypto/rand.Reader failing (at once, or after a few bytes) an
+	// encryption must fail - or at least still be fresh; it may never silently reuse a nonce
+	for _, okBytes := range []int{0, 5, 23} {
+		key := gen.Bytes(r, 32)
+		saved := cryptorand.Reader
+		var cts [][]byte
+		for rep := 0; rep < 2; rep++ {
+			cryptorand.Reader = &failingReader{ok: okBytes}
+			m := meta.NewMeta()
+			err := m.AddEncrypted("secret", "the same value twice", key)
+			cryptorand.Reader = saved
+			w.Eval(1)
+			w.Cover("entropy-fault")
+			if err == nil {
+				b, _ := m.GetBytes("secret")
+				cts = append(cts, b)
+			}
+		}
+		if len(cts) == 2 && bytes.Equal(cts[0], cts[1]) {
+			w.Violate("entropy-fault/nonce-reused", fmt.Sprintf("with the entropy source failing after %d bytes, AddEncrypted succeeds twice and produces identical ciphertexts (nonce %x)", okBytes, capBytes(cts[0], 24)),
+				map[string]any{"rng_bytes_before_failure": okBytes, "ciphertext": mon.Hex(cts[0])})
+		}
+	}
+
 	// ---- key validation (every shard: cheap)
 	good := gen.Bytes(r, 32)
 	okMeta := meta.NewMeta()
@@ -325,4 +351,25 @@ func capBytes(b []byte, n int) []byte {
 		return b[:n]
 	}
 	return b
+}
+
+// failingReader delivers ok zero bytes, then fails.
+type failingReader struct{ ok int }
+
+func (f *failingReader) Read(p []byte) (int, error) {
+	if f.ok <= 0 {
+		return 0, errors.New("entropy source unavailable")
+	}
+	n := len(p)
+	if n > f.ok {
+		n = f.ok
+	}
+	for i := 0; i < n; i++ {
+		p[i] = 0
+	}
+	f.ok -= n
+	if n < len(p) {
+		return n, errors.New("entropy source unavailable")
+	}
+	return n, nil
 }
